@@ -9,4 +9,6 @@ INVARIANT HklInverse
 INVARIANT UBProduct
 INVARIANT RotationKeepsNorm
 INVARIANT Lossless
+INVARIANT NoHistory
+INVARIANT GraphRoute
 CHECK_DEADLOCK FALSE
